@@ -1242,23 +1242,6 @@ def r11_clock_path(L, repo):
     def accept(s):
         # explicit raises and value-dependent partial operations on queued fields are decided where the values are
         # sanitised (R2 for the parser, R4 for stored attributes); this path adds the operations that fail whatever the data
-        if s.kind == "raise":
-            # an explicit raise nothing catches before it leaves the thread ends the clock for every transceiver - unless it
-            # is the refusal of an argument of the wrong TYPE: which class an object handed from one toolkit function to
-            # the next belongs to is not something received octets decide
-            fd_ = s.node
-            while fd_ is not None and not isinstance(fd_, ast.FunctionDef):
-                fd_ = getattr(fd_, "_parent", None)
-            if fd_ is not None:
-                try:
-                    lits_ = guard_literals(es.cfg(fd_), es.cfg(fd_).node_of(s.node))
-                except AnalysisError:
-                    lits_ = set()
-                import re as _re
-                for t_, pol_ in lits_:
-                    if (not pol_) and _re.fullmatch(r"isinstance\(\w+, .+\)", t_):
-                        return "type check of an argument (`not %s`): not decided by received octets" % t_[:50]
-            return None
         if s.kind != "format":
             return "value-dependent: decided by C14.R2 / C14.R4"
         return None
